@@ -46,12 +46,23 @@ def _ustar_ref(ctx, eq, I, beta, grav=GRAV):
     return (8.0 * np.pi ** 3) * eq / grav / I / beta / 4
 
 
-def case_peak(ctx, nf, layout, nanmask=None, I=2.5, beta=0.012, kappa=0.4, alpha=0.012, convention="going_to_counter_clockwise_east"):
+def case_peak(ctx, nf, layout, nanmask=None, I=None, beta=None, kappa=None, alpha=None,
+              convention="going_to_counter_clockwise_east"):
     W = _shim(ctx)
     f, e, a1, b1, s = _spec(ctx, nf, layout, nanmask)
-    out = W.estimate_u10_from_spectrum(s, "peak", directional_spreading_constant=I, phillips_constant_beta=beta,
-                                       vonkarman_constant=kappa, charnock_constant=alpha,
-                                       direction_convention=convention)
+    # only the parameters that differ from their documented defaults are passed
+    kw = {}
+    if I is not None:
+        kw["directional_spreading_constant"] = I
+    if beta is not None:
+        kw["phillips_constant_beta"] = beta
+    if kappa is not None:
+        kw["vonkarman_constant"] = kappa
+    if alpha is not None:
+        kw["charnock_constant"] = alpha
+    I, beta, kappa, alpha = (2.5 if I is None else I, 0.012 if beta is None else beta, 0.4 if kappa is None else kappa,
+                             0.012 if alpha is None else alpha)
+    out = W.estimate_u10_from_spectrum(s, "peak", direction_convention=convention, **kw)
     us = C.values(out["friction_velocity"])
     dr = C.values(out["direction"])
     u10 = C.values(out["u10"])
@@ -196,6 +207,10 @@ def cases(tier):
         add("case_peak", f"peak_nf{nf}_scalar", nf=nf, layout="scalar", opts=dict(weight=nf ** 3))
     add("case_peak", "peak_nf3_time", nf=3, layout="time", opts=dict(weight=50))
     add("case_peak", "peak_nf3_nondefault", nf=3, layout="scalar", I=2.0, beta=0.015625, kappa=0.41, alpha=0.0185)
+    add("case_peak", "peak_nf3_beta_only", nf=3, layout="scalar", beta=0.02)
+    add("case_peak", "peak_nf3_alpha_only", nf=3, layout="scalar", alpha=0.0185)
+    add("case_peak", "peak_nf3_kappa_only", nf=3, layout="scalar", kappa=0.41)
+    add("case_peak", "peak_nf3_I_only", nf=3, layout="scalar", I=2.0)
     add("case_peak", "peak_nf3_comingfrom", nf=3, layout="scalar", convention="coming_from_clockwise_north")
     add("case_peak", "peak_nf4_nan", nf=4, layout="scalar", nanmask=[0, 1, 0, 0], opts=dict(weight=30))
     add("case_convention", "convention_nf3", nf=3, opts=dict(weight=30))
